@@ -106,6 +106,9 @@ pub use shared_clock::SharedClock;
 /// Helper types used for fuzzing
 ///
 /// Enabled by the `fuzz` `feature`
+#[cfg(feature = "verif")]
+pub mod verif;
+
 #[cfg(feature = "fuzz")]
 pub mod fuzz {
     pub use crate::datastructures::messages::FuzzMessage;
